@@ -341,3 +341,29 @@ def identity_first(c, facts, R):
             c.ok(R, {'occurs_line': ot['ln'], 'only_when_operands_differ': True})
         else:
             c.bad(R, 'occurs-before-identity-test', 'unify() can call occurs(a, b) with a == b (X = X is then reported as a recursive type and the verdict depends on equation order) (%s:%s)' % (fn.file, ot['ln']))
+
+
+def occurs_existential(c, facts, R):
+    """occurs(a, b) is true when a occurs in ANY nested tag of b: sub-results are combined with || / any, never && / all"""
+    fn = c.anchor(R, 'oal_compiler::inference::unify::occurs')
+    bad = []
+    nested = 0
+    for e, anc in hir_walk(fn.hir['body']):
+        if e['k'] == 'mcall' and e['name'] in ('all', 'any', 'find', 'position', 'fold', 'try_for_each'):
+            inner = any(x['k'] == 'call' and callee_id(x) == fn.id for x, _ in hir_walk(e))
+            if inner:
+                nested += 1
+                if e['name'] != 'any':
+                    bad.append('.%s(..)' % e['name'])
+        if e['k'] == 'binary' and e['op'] in ('And', 'Or'):
+            both = [any(x['k'] == 'call' and callee_id(x) == fn.id for x, _ in hir_walk(side)) for side in (e['l'], e['r'])]
+            if all(both) or (any(both) and e['op'] == 'And'):
+                nested += 1
+                if e['op'] == 'And':
+                    bad.append('&&')
+    if bad:
+        c.bad(R, 'occurs-conjunctive:%s' % ','.join(sorted(set(bad))), 'occurs() combines the results for nested tags with %s: a variable that occurs in only some of them is missed, an infinite type is bound and reduce() diverges' % ', '.join(sorted(set(bad))))
+    elif nested:
+        c.ok(R, {'occurs': 'nested results are combined disjunctively (||, any)', 'combinations': nested})
+    else:
+        c.skip(R, 'occurs', 'no combination of nested results found')
